@@ -96,7 +96,7 @@ def run(ctx, replay=None):
                 rid += 1
     # (c) distance family: one exit / key / beacon among walls and doors
     for _ in range(400 if ctx.quick else 6000):
-        h, w = rng.choice([(2, 3), (3, 3), (3, 4), (4, 4), (5, 5)])
+        h, w = rng.choice([(2, 3), (3, 3), (3, 4), (4, 4), (5, 5), (4, 2), (6, 9), (9, 6), (3, 11)])
         st = distance_state(rng, h, w)
         for a in (rng.sample(steps.ACTIONS, 2) if ctx.quick else steps.ACTIONS):
             nexts = [perturb(rng, st) for _ in range(2)]
